@@ -274,7 +274,14 @@ impl GrandState {
                     }
                 }
 
-                state.current_state = new_state;
+                // A signal that has been caught but not yet handled must not be
+                // forgotten when the action is replaced with another command.
+                let pending = state.current_state.pending
+                    && matches!(new_state.action, Action::Command(_));
+                state.current_state = TrapState {
+                    pending,
+                    ..new_state
+                };
             }
         }
 
